@@ -126,3 +126,32 @@ void drv_c07_mpn(int tier, unsigned long seed, const char *extra) {
       fn_begin("mpn_gcd_1"); fn_in_limbs("a", u, un); fn_in_int("an", un); fn_in_u64("b", l); fn_mid(); r = mpn_gcd_1(u, un, l); fn_out_u64("g", r); fn_end(); }
   }
 }
+
+/* c07_jac2: Jacobi / Kronecker symbols of TWO-limb (and three-limb, zero middle limb) operands whose limbs are corners for the symbol: low limbs in every class
+   mod 8 at both ends of the limb range (the (2|a) factor), high limbs 1..9 / 2^63.. / 2^64-1 so that the DIFFERENCE of two operands has every trailing-zero
+   count parity and, for equal low limbs, loses its whole low limb (mpn_jacobi_2's "bl == 0" branch needs a 64-bit limb of b - a to vanish: never with random data).
+   All pairs with equal low limbs, a seeded eighth (thorough: all) of the others; signs of both operands. */
+void drv_c07_jac2(int tier, unsigned long seed, const char *extra) {
+  shard_t sh = shard_parse(extra); long x = 0; int la, ha, lb, hb, mid;
+  static const mp_limb_t L[] = {1, 3, 5, 7, 9, 11, ((mp_limb_t)1 << 63) + 1, ((mp_limb_t)1 << 63) + 3, ((mp_limb_t)1 << 63) + 5, ((mp_limb_t)1 << 63) + 7, ~(mp_limb_t)0, ~(mp_limb_t)0 - 2, ~(mp_limb_t)0 - 4, ~(mp_limb_t)0 - 6};
+  static const mp_limb_t H[] = {1, 2, 3, 4, 5, 6, 8, 9, (mp_limb_t)1 << 63, ((mp_limb_t)1 << 63) + 1, ((mp_limb_t)1 << 63) + 2, ~(mp_limb_t)0, ~(mp_limb_t)0 - 1};
+  for (mid = 0; mid < 2; mid++) for (la = 0; la < 14; la++) for (ha = 0; ha < 13; ha++) {
+    x++; if (!MINE(sh, x)) continue;
+    if (sh.pure && (la > 1 || ha > 1 || mid)) continue;
+    rec_reset("c07_jac2", x, seed);
+    { int j; for (j = 0; j < 3; j++) callf("mpz_init", j); }
+    for (lb = 0; lb < 14; lb++) for (hb = 0; hb < 13; hb++) { mp_limb_t a[3], b[3]; int n = mid ? 3 : 2, s; char *h;
+      if (la != lb && !tier && rnd_below(8)) continue;
+      if (mid && la != lb && rnd_below(4)) continue;
+      a[0] = L[la]; a[n - 1] = H[ha]; b[0] = L[lb]; b[n - 1] = H[hb]; if (mid) a[1] = b[1] = 0;
+      h = hex_of_limbs(a, n, 0); callf("drv_setz", 0, h); free(h); h = hex_of_limbs(b, n, 0); callf("drv_setz", 1, h); free(h);
+      callf("mpz_jacobi", 0, 1); callf("mpz_kronecker", 0, 1);
+      for (s = 1; s < 4; s++) { if (!tier && s != 1 + (int)((la + hb) % 3)) continue;
+        if (s & 1) callf("mpz_neg", 0, 0); if (s & 2) callf("mpz_neg", 1, 1); callf("mpz_kronecker", 0, 1); if (s & 1) callf("mpz_neg", 0, 0); if (s & 2) callf("mpz_neg", 1, 1); }
+      /* an even first operand: powers of two in front of the same odd parts */
+      if (la == lb) { callf("mpz_mul_2exp", 2, 0, (uint64_t)(1 + (ha + hb) % 70)); callf("mpz_kronecker", 2, 1); callf("mpz_jacobi", 2, 1); }
+    }
+    { int j; for (j = 0; j < 3; j++) callf("mpz_clear", j); }
+    rec_quiesce();
+  }
+}
